@@ -244,6 +244,7 @@ def run(repo: Repo, tier: str, res: CheckResult, seed: int = 0) -> None:
     res.count("ESC.collecting-handlers", n_collect, 8)
 
     hashing_factories(repo, res)
+    memo_hashes_datum(repo, res)
     # generated model loaders
     from .. import genprog
     genprog.c04_checks(repo, tier, res, eng, seed)
@@ -252,6 +253,22 @@ def run(repo: Repo, tier: str, res: CheckResult, seed: int = 0) -> None:
     res.coverage["operations_evaluated"] = eng.ops_evaluated
     res.coverage["trusted_base"] = ["Python ast", "sa/exc_model.py effect table", "data universe of DESIGN.md §0"]
     res.assumptions = list(ASSUMPTIONS)
+
+
+def memo_hashes_datum(repo: Repo, res: CheckResult) -> None:
+    """A functools memo in front of a function that receives the datum hashes the datum BEFORE the function (and its handlers)
+    runs: a JSON-shaped unhashable datum (a list, a dict) raises `TypeError: unhashable type` from the cache wrapper and nothing
+    translates it. The inventory of memo applications is the one of C20 (MEMO.runtime-function-memoised)."""
+    from .c20 import memoised_runtime_functions
+    sub = CheckResult("C20")
+    memoised_runtime_functions(repo, sub)
+    res.evaluated("esc:memo-in-front-of-loader", True)
+    for f in sub.findings:
+        if f.rule == "MEMO.runtime-function-memoised" and "/morphing/" in f.file:
+            res.add(Finding("C04", "ESC.memo-hashes-datum", f.file, f.qualname, f.construct,
+                            f"`{f.construct}`: the memo wrapper hashes its argument -- the datum -- before the wrapped function and its "
+                            "exception handlers run; an unhashable datum ([1], {'a': 1}) raises TypeError (unhashable type) instead "
+                            "of a LoadError", f.line))
 
 
 def hashing_factories(repo: Repo, res: CheckResult) -> None:
